@@ -344,6 +344,28 @@ def r_foreach(body):
         body = body[:j] + new + body[close + 1:]
 
 
+
+def r_setappend(body, recv):
+    """RECV.append(&mut E)  ->  set_append(&mut RECV, E)   for a BTreeSet receiver: vstd does not specify BTreeSet::append; the prelude's
+    `set_append` carries std's documented semantics (union; the argument is drained).  (R-setappend)"""
+    log = []
+    while True:
+        m = code_mask(body)
+        mo = None
+        for x in re.finditer(r"\b" + re.escape(recv) + r"\.append\(\s*&mut\s+", body):
+            if m[x.start()]:
+                mo = x
+                break
+        if mo is None:
+            return body, log
+        op = body.index("(", mo.start())
+        close = match_close(body, m, op)
+        arg = body[mo.end():close].strip()
+        new = "set_append(&mut %s, %s)" % (recv, arg)
+        log.append(("R-setappend", norm_ws(body[mo.start():close + 1])[:160], norm_ws(new)[:160]))
+        body = body[:mo.start()] + new + body[close + 1:]
+
+
 def r_tryfold(body):
     """RECV.try_fold(INIT, |ACC, PAT| BODY)  ->  { let mut ACC = INIT; for PAT in RECV { ACC = (BODY)?; } ACC_OK }
     where the whole expression is in tail / `?` position; emitted as a block evaluating to Result: Ok(ACC).
@@ -565,9 +587,10 @@ def insert_loops(body, loops, where):
                 raise Unsupported("for-loop header not recognised: " + hdr)
             hdr = hdr[:mo.end()] + lp["ghost"] + ": " + hdr[mo.end():]
         new = hdr.rstrip() + spec + "\n"
-        if lp.get("body_head"):
+        if lp.get("body_head") or lp.get("body_head_raw"):
             # ghost text placed first inside the loop body: independent of the statements of the body
-            body = body[:x.start()] + new + "{ proof { %s } " % lp["body_head"].strip() + body[k + 1:]
+            g = (lp.get("body_head_raw", "").strip() + " ") + ("proof { %s } " % lp["body_head"].strip() if lp.get("body_head") else "")
+            body = body[:x.start()] + new + "{ " + g + body[k + 1:]
         else:
             body = body[:x.start()] + new + body[k:]
         log.append(("ghost-loop", "%s loop #%d" % (kw, lp["index"]), norm_ws(spec)[:200]))
@@ -720,6 +743,10 @@ def emit_fn(f, udir, unit_props, recs, log_global):
             sig, body, l = r_mutself(sig, body)
             log += l
         for r in rewrites:
+            if r.startswith("setappend:"):
+                body, l = r_setappend(body, r.split(":", 1)[1])
+                log += l
+        for r in rewrites:
             if r.startswith("mutparam:"):
                 sig, body, l = r_mutparam(sig, body, r.split(":", 1)[1])
                 log += l
@@ -795,6 +822,8 @@ def assemble(unit_name, canary=False, demote=()):
         pos[0] += len(t.encode())
 
     add("#![allow(unused_imports, unused_variables, dead_code, unused_mut, unused_parens, non_snake_case, unused_assignments, unreachable_code)]\n")
+    for l in u.get("crate_attrs", []):
+        add(l.rstrip() + "\n")
     add("use vstd::prelude::*;\n")
     for l in u.get("uses", []):
         add(l.rstrip() + "\n")
